@@ -182,6 +182,37 @@ func TestVerifServerACDeps(t *testing.T) {
 			}
 		}
 	}
+	// stdout / stderr carried inline AND by digest, stored through HTTP (which does not copy inlined
+	// bytes to the CAS): the digest is still a dependency
+	for i := 0; i < 8; i++ {
+		rec.Case()
+		data := rng.Bytes(40 + i)
+		d := &pb.Digest{Hash: vSha(data), SizeBytes: int64(len(data))}
+		ar := &pb.ActionResult{ExitCode: int32(i)}
+		which := "stdout"
+		if i%2 == 0 {
+			ar.StdoutRaw, ar.StdoutDigest = data, d
+		} else {
+			ar.StderrRaw, ar.StderrDigest = data, d
+			which = "stderr"
+		}
+		present := i >= 4
+		if present {
+			f.vPutBlob(t, data)
+		}
+		key := vSha(rng.Bytes(16))
+		b, _ := proto.Marshal(ar)
+		if code, _, _ := f.vHTTPDo("PUT", "/ac/"+key, nil, b); code != 200 {
+			t.Fatalf("HTTP AC PUT: %d", code)
+		}
+		hcode, _, _ := f.vHTTPDo("GET", "/ac/"+key, nil, nil)
+		_, gerr := f.ac.GetActionResult(ctx, &pb.GetActionResultRequest{ActionDigest: &pb.Digest{Hash: key, SizeBytes: 1}, InlineStdout: true, InlineStderr: true})
+		rec.Note(fmt.Sprintf("inline+digest %s present=%v -> http %d grpc %v", which, present, hcode, status.Code(gerr)))
+		rec.Distinct(fmt.Sprintf("inline-digest:%s:%v", which, present))
+		if (hcode == 200) != present || (gerr == nil) != present {
+			rec.Violation("C06", "acdeps.inline-and-digest."+which, fmt.Sprintf("%s carried inline and by digest, digest blob present=%v: HTTP GET %d, gRPC %v", which, present, hcode, status.Code(gerr)), nil)
+		}
+	}
 	rec.Set("rule", "11 ActionResult shapes (files, inline files, trees with root/child files, nil file digests, empty-blob refs, stdout/stderr) x every subset of absent referenced blobs (sampled above 16/256) x optional size mismatch; fresh blobs per case")
 }
 
